@@ -234,3 +234,38 @@ Proof.
   - constructor; [|constructor]. split; [cbn; tauto | exact I].
   - cbn. constructor; [cbn; tauto | constructor].
 Qed.
+
+(** ---- the documented table, read off the printed string: option letter x marker -> restriction of the parsed specification
+    (and, through [class_of], the adapter class); a marker on the wrong side for the option is refused, -b takes no marker *)
+Definition documented_restriction (t : cmdtype) (m : mark) : option restriction :=
+  match t, m with
+  | _, MNone => Some RNone
+  | TFront, MCaret => Some RAnchored
+  | TFront, MFrontX _ _ => Some RNonInternal
+  | TBack, MDollar => Some RAnchored
+  | TBack, MBackX _ _ => Some RNonInternal
+  | _, _ => None
+  end.
+
+Theorem printed_table name m core t :
+  let a := mkA name m core [] in
+  wf_sast a ->
+  parse_spec (show_sast a) t =
+  match documented_restriction t m with
+  | Some r => Ok (mkSpec name r core [] t false)
+  | None => Err
+  end.
+Proof.
+  intros a Hw. rewrite parse_spec_printed by exact Hw. subst a. cbn [s_fields s_name s_mark s_core map].
+  destruct t, m; reflexivity.
+Qed.
+
+Corollary printed_table_classes :
+  let cls t m := match documented_restriction t m with Some r => Some (class_of t r false) | None => None end in
+  forall x xs,
+  cls TBack MNone = Some Back /\ cls TBack MDollar = Some Suffix /\ cls TBack (MBackX x xs) = Some NonInternalBack /\
+  cls TFront MNone = Some Front /\ cls TFront MCaret = Some Prefix /\ cls TFront (MFrontX x xs) = Some NonInternalFront /\
+  cls TAnywhere MNone = Some Anywhere /\
+  cls TBack MCaret = None /\ cls TBack (MFrontX x xs) = None /\ cls TFront MDollar = None /\ cls TFront (MBackX x xs) = None /\
+  cls TAnywhere MCaret = None /\ cls TAnywhere MDollar = None /\ cls TAnywhere (MFrontX x xs) = None /\ cls TAnywhere (MBackX x xs) = None.
+Proof. intros cls x xs. repeat split; reflexivity. Qed.
